@@ -362,6 +362,43 @@ def check_batch_faults(ctx):
     shutil.rmtree(d, ignore_errors=True)
 
 
+def check_overwrite(ctx):
+    """the destination already exists and is LONGER than the new output: the written file must
+    still be exactly the library bytes (single file, batch directory, action wrapper)"""
+    big = {"protocol": 2, "seed": 7, "min": 200, "max": 300}
+    small = {"protocol": 2, "seed": 8, "min": 5, "max": 10}
+    want_small = ctx.lib.gen_many(map_options(small))
+    # single file
+    path = os.path.join(ctx.tmp, "overwrite.pkl")
+    run_cli(ctx, cli_argv(big, [path]))
+    n_before = os.path.getsize(path) if os.path.exists(path) else 0
+    r = run_cli(ctx, cli_argv(small, [path]))
+    got = open(path, "rb").read() if os.path.exists(path) else None
+    compare(ctx, "C13", "cli", "overwrite_longer_file", got, want_small,
+            {"frontend": "cli", "options": small, "history": "same FILE written before with %d bytes" % n_before, "status": "exit %d" % r.returncode})
+    # pre-existing garbage that is longer than any pickle
+    path2 = os.path.join(ctx.tmp, "overwrite2.pkl")
+    with open(path2, "wb") as f:
+        f.write(b"\x00" * 100000)
+    r = run_cli(ctx, cli_argv(small, [path2]))
+    got = open(path2, "rb").read()
+    compare(ctx, "C13", "cli", "overwrite_longer_file", got, want_small,
+            {"frontend": "cli", "options": small, "history": "FILE pre-filled with 100000 bytes", "status": "exit %d" % r.returncode})
+    # batch directory reused
+    d = os.path.join(ctx.tmp, "overwrite-dir")
+    run_cli(ctx, cli_argv(big, ["--dir", d, "--samples", "4"]))
+    r = run_cli(ctx, cli_argv(small, ["--dir", d, "--samples", "4"]))
+    for k in range(4):
+        p = os.path.join(d, "%d.pkl" % k)
+        got = open(p, "rb").read() if os.path.isfile(p) else None
+        if not compare(ctx, "C13", "batch", "overwrite_longer_file", got, want_small,
+                       {"frontend": "batch", "options": small, "history": "same --dir written before with longer files", "file": "%d.pkl" % k,
+                        "status": "exit %d" % r.returncode}):
+            break
+    shutil.rmtree(d, ignore_errors=True)
+    ctx.count("overwrite_histories", 3)
+
+
 # ------------------------------------------------------------------ action wrapper
 
 def check_action(ctx, opts, tagp="a"):
@@ -605,6 +642,7 @@ def check_c13(tier, seed, paths):
         batch_opts = seeded[::7] if not thorough else seeded[::3]
         check_batch(ctx, batch_opts, [1, 7] if not thorough else [1, 7, 64], [1, 16] if not thorough else [1, 2, 3, 16])
         check_batch_faults(ctx)
+        check_overwrite(ctx)
         action_opts = [o for o in seeded if not (o.get("mutators") and len(o["mutators"]) > 3)]
         check_action(ctx, action_opts[::3] if not thorough else action_opts)
         # wrapper + mutators + output_file with no later flag (the positional directly follows the mutator list)
